@@ -22,6 +22,38 @@ SPEC = PropertySpec(
 )
 
 
+def _set_methods_to_operators(mod):
+    """alias_relation.py works on sets: `s.update(t)` on a local is `s |= t`, `a.union(b)` is `a | b`, `d.get(k, {k})`-style fallbacks are left
+    alone — the rules below are written for the operator forms"""
+    for fn in [f for f in ast.walk(mod) if isinstance(f, ast.FunctionDef)]:
+        for holder in ast.walk(fn):
+            for f_ in ("body", "orelse", "finalbody"):
+                lst = getattr(holder, f_, None)
+                if not isinstance(lst, list):
+                    continue
+                for i, st in enumerate(lst):
+                    c = st.value if isinstance(st, ast.Expr) else None
+                    if isinstance(c, ast.Call) and isinstance(c.func, ast.Attribute) and c.func.attr == "update" and isinstance(c.func.value, ast.Name) \
+                            and len(c.args) == 1 and not c.keywords:
+                        lst[i] = ast.copy_location(ast.AugAssign(target=ast.Name(id=c.func.value.id, ctx=ast.Store()), op=ast.BitOr(), value=c.args[0]), st)
+
+        class U(ast.NodeTransformer):
+            def visit_Call(self, n):
+                self.generic_visit(n)
+                if isinstance(n.func, ast.Attribute) and n.func.attr == "union" and len(n.args) == 1 and not n.keywords:
+                    return ast.copy_location(ast.BinOp(left=n.func.value, op=ast.BitOr(), right=n.args[0]), n)
+                return n
+
+        U().visit(fn)
+    ast.fix_missing_locations(mod)
+
+
+from ..engine import FILE_NORMALISERS  # noqa: E402
+
+if _set_methods_to_operators not in FILE_NORMALISERS.setdefault(AR, []):
+    FILE_NORMALISERS[AR].append(_set_methods_to_operators)
+
+
 def _toggle(node) -> bool:
     return isinstance(node, ast.Call) and isinstance(node.func, ast.Attribute) and "toggle_sign" in node.func.attr and len(node.args) == 1
 
@@ -127,6 +159,10 @@ def _inplace_mutated_attrs(cls_node):
             for r in walk_local(m):
                 if isinstance(r, ast.Return) and isinstance(r.value, ast.Subscript) and norm(r.value.value).startswith("self._"):
                     returns[m.name] = norm(r.value.value)[5:]
+                # the same with a default: `return self._aliases.get(a, {a})`
+                if isinstance(r, ast.Return) and isinstance(r.value, ast.Call) and isinstance(r.value.func, ast.Attribute) and r.value.func.attr in ("get", "setdefault") \
+                        and norm(r.value.func.value).startswith("self._"):
+                    returns[m.name] = norm(r.value.func.value)[5:]
     out = {}
     for m in cls_node.body:
         if not isinstance(m, ast.FunctionDef):
